@@ -223,6 +223,7 @@ func c01(c *fw.Ctx) {
 		}
 	}
 	c.Floor("retained_results_decoded_after_later_encodes", 250)
+	c.Floor("boundary_numeric_or_alphanumeric_with_charset_hint", 150)
 	// (a) boundaries
 	for v := 1; v <= 40; v++ {
 		for _, l := range qrAllLevels {
@@ -248,6 +249,13 @@ func c01(c *fw.Ctx) {
 							continue
 						}
 						text, _, charset := qrPayload(rng, mode, lens[i])
+						if (mode == qrref.Numeric || mode == qrref.Alphanumeric) && charset == "" && rng.Intn(3) == 0 {
+							// a character-set hint next to content that needs none: digits and the 45-character
+							// set are the same in every character set and take no designator, so exactly as
+							// much fits as without the hint
+							charset = []string{"UTF-8", "ISO-8859-1", "Shift_JIS", "UTF-16BE"}[rng.Intn(4)]
+							r.Tally("boundary_numeric_or_alphanumeric_with_charset_hint")
+						}
 						margin := 0
 						if rng.Intn(3) == 0 {
 							margin = 4 + rng.Intn(9)
